@@ -18,10 +18,7 @@ Theorem c10_callback_prefix :
     drive L llen PS init_ps recog bump lineno lines tail sch = Ret (r, s) ->
     cbsum s = total s /\ 0 <= total s <= input_len L llen lines tail /\
     (forall p, r = ROk p -> cbsum s = input_len L llen lines tail).
-Proof.
-  intros L llen PS init_ps recog bump lineno Hl lines tail sch r s H.
-  exact (drive_callback L llen PS init_ps recog bump lineno Hl lines tail sch r s H).
-Qed.
+Proof. exact drive_callback. Qed.
 Print Assumptions c10_callback_prefix.
 
 (* If every line (and the unterminated rest) is shorter than 80 KiB, the outcome under ANY
@@ -35,10 +32,7 @@ Theorem c10_chunk_independent :
     forall sch : list Z,
     exists s, drive L llen PS init_ps recog bump lineno lines tail sch
               = Ret (spec L PS init_ps recog lineno lines tail, s).
-Proof.
-  intros L llen PS init_ps recog bump lineno Hl lines tail Hs sch.
-  exact (drive_is_spec L llen PS init_ps recog bump lineno Hl lines tail Hs sch).
-Qed.
+Proof. exact drive_is_spec. Qed.
 Print Assumptions c10_chunk_independent.
 
 (* ... hence any two schedules (in particular a chunked reader and the whole slice, [sch = []])
@@ -53,12 +47,7 @@ Theorem c10_any_two_schedules :
     drive L llen PS init_ps recog bump lineno lines tail s1 = Ret (r1, st1) ->
     drive L llen PS init_ps recog bump lineno lines tail s2 = Ret (r2, st2) ->
     r1 = r2.
-Proof.
-  intros L llen PS init_ps recog bump lineno Hl lines tail Hs s1 s2 r1 st1 r2 st2 H1 H2.
-  destruct (drive_is_spec L llen PS init_ps recog bump lineno Hl lines tail Hs s1) as [x1 E1].
-  destruct (drive_is_spec L llen PS init_ps recog bump lineno Hl lines tail Hs s2) as [x2 E2].
-  rewrite H1 in E1. rewrite H2 in E2. inversion E1. inversion E2. reflexivity.
-Qed.
+Proof. exact two_schedules. Qed.
 Print Assumptions c10_any_two_schedules.
 
 (* non-vacuity: a file with a FUNC group and a CFI group, read 1 byte / 7 bytes at a time and
